@@ -545,6 +545,7 @@ func c03(c *Ctx) {
 		c.Check(ok, "service-present", n, "-", "", "stateful service named by the property is not registered")
 	}
 	c03EventAddrs(c)
+	c03PeerKeys(c)
 }
 
 func baseOf(addr ssa.Value) ssa.Value {
